@@ -2,76 +2,28 @@
    what probing keeps, and the specification of get_layers as a pure step. *)
 From LC Require Import Lib.Bytes Lib.Lex Lib.Fields Lib.PathM Gen.Consts
   Model.MountInfo Model.FsTree Model.Kernel Model.Layers
-  Cases.Verdict Cases.LC Proofs.MountInfoP Proofs.MonadP Proofs.ForestP Proofs.KernelP.
+  Cases.Verdict Cases.LC Proofs.MountInfoP Proofs.MonadP Proofs.ForestP Proofs.KernelP Proofs.RoundtripP.
 Local Open Scope nat_scope.
 
-(* ------------------------------------------------------------------ strings.Fields yields tokens *)
-Definition nsp (t : bytes) : Prop := forallb (fun c => negb (is_sp c)) t = true.
-Lemma nsp_rev t : nsp (rev t) <-> nsp t.
-Proof.
-  unfold nsp. rewrite !forallb_forall. split; intros H x Hx; apply H.
-  - now apply in_rev in Hx.
-  - now apply in_rev.
-Qed.
-Definition finv (st : fst_) : Prop := nsp (fst st) /\ forall t, In t (snd st) -> nsp t.
-Lemma fstep_finv st c : finv st -> finv (fstep st c).
-Proof.
-  destruct st as [cur out]. unfold fstep, finv. cbn [fst snd]. intros [H1 H2]. destruct (is_sp c) eqn:E.
-  - destruct cur as [|a cur']; cbn [fst snd]; split; auto; try reflexivity.
-    intros t [<-|Ht]; [now apply nsp_rev|auto].
-  - cbn [fst snd]. split; [|exact H2]. unfold nsp. cbn [forallb]. rewrite E. exact H1.
-Qed.
-Lemma fold_finv s : forall st, finv st -> finv (fold_left fstep s st).
-Proof. induction s as [|c s IH]; intros st H; cbn [fold_left]; [exact H|]. apply IH. now apply fstep_finv. Qed.
-Lemma fields_nsp s t : In t (fields s) -> nsp t.
-Proof.
-  unfold fields. pose proof (fold_finv s ([], [])) as H.
-  destruct (fold_left fstep s ([], [])) as [cur out]. unfold finv in H. cbn [fst snd] in H.
-  destruct H as [H1 H2]; [split; [reflexivity|intros ? []]|].
-  unfold ffinish. destruct cur as [|a cur'].
-  - intros Hin. apply in_rev in Hin. auto.
-  - intros Hin. apply in_rev in Hin. destruct Hin as [<-|Hin]; [now apply nsp_rev|auto].
-Qed.
+(* ------------------------------------------------------------------ loaded definitions are canonical *)
 Lemma nsp_nospace t : nsp t -> nospace t = true.
 Proof.
-  intros H. apply nospace_iff. intros Hin. unfold nsp in H. rewrite forallb_forall in H.
-  specialize (H _ Hin). discriminate.
+  intros H. apply nospace_iff. intros Hin. pose proof (nsp_in _ _ H Hin). discriminate.
 Qed.
 
-(* ------------------------------------------------------------------ layerconfig contents *)
-Definition lf_ok (lf : lfile) : Prop := forall nm, In nm (lf_mounts lf) -> nospace (nm_fstype nm) = true.
-Lemma lf_step_ok st line : lf_ok st -> lf_ok (lf_step st line).
+Definition mounts_ok (l : layer) : Prop :=
+  (l_base l = [] \/ tok_ok (l_base l)) /\ Forall canon_m (l_mounts l) /\ Forall canon_e (l_exports l).
+Lemma mounts_ok_nospace l nm : mounts_ok l -> In nm (l_mounts l) -> nospace (nm_fstype nm) = true.
 Proof.
-  intros H. unfold lf_step. cbv zeta. destruct (is_comment _); [exact H|].
-  destruct (fields (trim line)) as [|kw args] eqn:Ef; [exact H|].
-  assert (Hargs : forall t, In t args -> nospace t = true).
-  { intros t Ht. apply nsp_nospace, (fields_nsp (trim line)). rewrite Ef. now right. }
-  destruct (beq kw (bs "base")).
-  { destruct args as [|b0 r]; [exact H|]. destruct (lf_base st); [exact H|]. destruct (beq _ b0); exact H. }
-  destruct (beq kw (bs "import")).
-  { destruct args as [|ty [|src [|mnt r]]]; try exact H.
-    intros nm. cbn [lf_mounts]. intros Hin. apply in_app_or in Hin as [Hin|[<-|[]]]; [now apply H|].
-    cbn [nm_fstype]. apply Hargs. now left. }
-  destruct (beq kw (bs "export")).
-  { destruct args as [|ty [|src [|mnt r]]]; exact H. }
-  exact H.
+  intros (_ & H & _) Hin. rewrite Forall_forall in H. destruct (H _ Hin) as ((_ & H1) & _). now apply nsp_nospace.
 Qed.
-Lemma read_layerfile_ok content : lf_ok (read_layerfile content).
-Proof.
-  unfold read_layerfile.
-  assert (G : forall ls st, lf_ok st -> lf_ok (fold_left lf_step ls st)).
-  { induction ls as [|l ls IH]; intros st H; cbn [fold_left]; [exact H|]. apply IH. now apply lf_step_ok. }
-  apply G. intros nm [].
-Qed.
-
-Definition mounts_ok (l : layer) : Prop := forall nm, In nm (l_mounts l) -> nospace (nm_fstype nm) = true.
 Definition LW (m : lmap) : Prop := forall l, In l m -> mounts_ok l.
 
 Lemma load_layer_props c f n l : load_layer c f n = Some l ->
   l_name l = n /\ mounts_ok l /\ l_path l = layer_path c n.
 Proof.
   unfold load_layer. destruct (if is_file f _ then read_file f _ else None) as [content|]; [|discriminate].
-  intros H. injection H as <-. cbn. repeat split. exact (read_layerfile_ok content).
+  intros H. injection H as <-. split; [reflexivity|]. split; [|reflexivity]. exact (read_layerfile_canon content).
 Qed.
 
 (* ------------------------------------------------------------------ readLayerFiles *)
@@ -191,7 +143,7 @@ Proof.
   intros [H1 H2] Hg Hc. unfold core in Hc. injection Hc as C1 C2 C3 C4 C5.
   split; cbn [set_layer ld_map].
   - rewrite <- H1. eapply skel_set; [rewrite C1; exact Hg|congruence].
-  - apply LW_set; [exact H2|]. unfold mounts_ok. rewrite C3. apply H2. eapply lm_get_in; eauto.
+  - apply LW_set; [exact H2|]. unfold mounts_ok. rewrite C2, C3, C4. apply H2. eapply lm_get_in; eauto.
 Qed.
 
 Lemma probe_layer_LDI c f um sk ld n : LDI sk ld ->
